@@ -193,8 +193,24 @@ let cmd_cert prog lim =
   match find_cert (to_prog (comp_of_text prog)) init_config (n_of_string lim) with
   | None -> "-" | Some (a, b) -> string_of_n a ^ "," ^ string_of_n b
 
+let cmd_plainm prog lim =
+  let ((r, n), (_, z)) = plain_run (to_prog (comp_of_text prog)) init_config (n_of_string lim) in
+  (match r with
+   | PLimit -> "limit" | PSpinout -> "spinout"
+   | PHalt sl -> "halt:" ^ field_of_slot sl) ^ "|" ^ string_of_n n ^ "|" ^ string_of_n (marks_of z)
+
+(* verified replay checker (Model/ReplayModel.v, Proofs/ReplaySound.v) *)
+let cmd_replay prog q before tq after fuel =
+  match replay3 (comp_of_text prog) (n_of_string q) (tape_of_field before)
+          (n_of_string tq) (tape_of_field after) (n_of_string fuel) with
+  | RpReached c -> "reached:" ^ string_of_n c
+  | RpStopped c -> "stopped:" ^ string_of_n c
+  | RpFuel -> "fuel"
+
 let dispatch (fields : string list) : string option =
   match fields with
+  | ["plainm"; prog; lim] -> Some (cmd_plainm prog lim)
+  | ["replay"; prog; q; before; tq; after; fuel] -> Some (cmd_replay prog q before tq after fuel)
   | ["plain"; prog; lim] -> Some (cmd_plain prog lim)
   | ["erase"; prog; lim] -> Some (cmd_erase prog lim)
   | ["cert"; prog; lim] -> Some (cmd_cert prog lim)
